@@ -1131,7 +1131,14 @@ def thread_events(run, pid, tier, with_tables=False, sessions_override=None):
                     b = e["board"]
                     hk.append({"ev": "hk", "h": e["ev"], "seq": e["seq"], "expired": e.get("expired", False),
                                "board": {"r": b["r"], "stm": b["stm"], "cr": b["cr"], "ep": b["ep"], "d": b["d"]}})
+                elif e["ev"] == "srch_print":
+                    hk.append({"ev": "hk", "h": "srch_print", "seq": e["seq"], "pv1": e.get("pv1", "")})
         hk.sort(key=lambda x: x["seq"])
+        if os.environ.get("VERIF_SELFTEST_DROP_SEND"):
+            # self-test of the binding only: lose one hook's events (the second srch_send of the session) - the trace must be rejected
+            idx = [i for i, x in enumerate(hk) if x["h"] == "srch_send"]
+            if len(idx) > 1:
+                del hk[idx[1]]
         # the process events form their own totally ordered sub-trace (global sequence number); they are appended
         # after the driver's view of the same session
         merged.append(evs + hk)
@@ -1179,7 +1186,10 @@ def thread_events(run, pid, tier, with_tables=False, sessions_override=None):
     totals = validate(run, pid, "hooks", merged, scripts=sessions, binary=None)
     if sessions_override is None and totals.get("hook_recvs", 0) < 10:
         raise ToolError("coverage hole: fewer than 10 receive events from the instrumented binary")
+    if sessions_override is None and totals.get("hook_prints", 0) < 10:
+        raise ToolError("coverage hole: fewer than 10 print events from the instrumented binary")
     run.cov["thread_events_validated"] = run.cov.get("thread_events_validated", 0) + totals.get("hook_events", 0)
+    run.cov["print_events_matched_to_their_sends"] = run.cov.get("print_events_matched_to_their_sends", 0) + totals.get("hook_prints", 0)
     return totals
 
 
